@@ -404,6 +404,19 @@ func (propC11) Run(w *World, st *Stats) (vv *Violation) {
 				vals[n] = v.Go()
 				norm[n] = FromGo(v.Norm())
 			}
+			// the exported normalisation helpers agree with the documented table
+			if s.Op == "eval" {
+				tv := eval.ToValueMap(vals)
+				for n, v := range s.Plan.Bind {
+					if got := tv[n]; !ValEq(got, v.Norm()) {
+						return viol(w, "normalisation", "step %d: ToValueMap normalises %s=%s (Go type %s) to %s, documented: %s", si, n, ValStr(v.Go()), v.T, ValStr(got), ValStr(v.Norm()))
+					}
+					if got := eval.UnifyType(v.Go()); !ValEq(got, v.Norm()) {
+						return viol(w, "normalisation", "step %d: UnifyType normalises %s (Go type %s) to %s, documented: %s", si, ValStr(v.Go()), v.T, ValStr(got), ValStr(v.Norm()))
+					}
+				}
+				st.Evals++
+			}
 			// reference: left-to-right evaluation of the program as compiled (the
 			// Dump tree), with every variable read by name from the normalised
 			// binding; the one-shot call compiles with optimisations off
